@@ -136,12 +136,71 @@ to_int_judge!(to_u64, u64, to_u64, |d: &Dy| d.to_u128().and_then(|v| u64::try_fr
 to_int_judge!(to_i128, i128, to_i128, |d: &Dy| d.to_i128());
 to_int_judge!(to_u128, u128, to_u128, |d: &Dy| d.to_u128());
 
+/// the pointer-sized spellings of the ToPrimitive / NumCast routes (isize, usize): same specification as
+/// the fixed-width type of the same size
+pub fn to_ptr_sized(x: [f64; 2]) -> Verdict {
+    let args = [x[0].to_bits(), x[1].to_bits()];
+    let t = st::mk(x);
+    if x[0].is_finite() && !dd_valid_fast(x[0], x[1]) {
+        return Verdict::Skip;
+    }
+    let tr = if x[0].is_finite() { Some(Dy::from_dd(x[0], x[1]).trunc()) } else { None };
+    let want_i: Option<isize> = tr.as_ref().and_then(|d| d.to_i128()).and_then(|v| isize::try_from(v).ok());
+    let want_u: Option<usize> = tr.as_ref().and_then(|d| d.to_u128()).and_then(|v| usize::try_from(v).ok());
+    let ri = [("ToPrimitive::to_isize", api(|| ToPrimitive::to_isize(&t))), ("NumCast::from -> isize", api(|| <isize as NumCast>::from(t)))];
+    let ru = [("ToPrimitive::to_usize", api(|| ToPrimitive::to_usize(&t))), ("NumCast::from -> usize", api(|| <usize as NumCast>::from(t)))];
+    for (route, r) in ri.iter() {
+        match r {
+            Err(m) => return Verdict::fail("no_panic", "to_isize", &args, format!("{}: panic: {}", route, m), format!("{:?}", want_i), "panic"),
+            Ok(g) if *g == want_i => {}
+            Ok(g) => return Verdict::fail("to_int", "to_isize", &args, format!("{}: {:?}", route, g), format!("{:?} (= trunc(hi+lo) if in range)", want_i), if g.is_some() && want_i.is_none() { "accepted_out_of_range" } else { "wrong_integer" }),
+        }
+    }
+    for (route, r) in ru.iter() {
+        match r {
+            Err(m) => return Verdict::fail("no_panic", "to_usize", &args, format!("{}: panic: {}", route, m), format!("{:?}", want_u), "panic"),
+            Ok(g) if *g == want_u => {}
+            Ok(g) => return Verdict::fail("to_int", "to_usize", &args, format!("{}: {:?}", route, g), format!("{:?} (= trunc(hi+lo) if in range)", want_u), if g.is_some() && want_u.is_none() { "accepted_out_of_range" } else { "wrong_integer" }),
+        }
+    }
+    Verdict::Pass
+}
+
+/// FromPrimitive::from_isize / from_usize and NumCast::from(isize / usize): exact (pointer-sized values have at most 64 bits)
+pub fn from_ptr_sized(w: u64) -> Verdict {
+    let args = [w, 0];
+    let (i, u) = (w as i64 as isize, w as usize);
+    let routes = [
+        ("FromPrimitive::from_isize", api(|| <st::TF as FromPrimitive>::from_isize(i)), Dy::from_i64(i as i64)),
+        ("NumCast::from(isize)", api(|| <st::TF as NumCast>::from(i)), Dy::from_i64(i as i64)),
+        ("FromPrimitive::from_usize", api(|| <st::TF as FromPrimitive>::from_usize(u)), Dy::from_u128(u as u128)),
+        ("NumCast::from(usize)", api(|| <st::TF as NumCast>::from(u)), Dy::from_u128(u as u128)),
+    ];
+    for (route, r, d) in routes.iter() {
+        match r {
+            Err(m) => return Verdict::fail("no_panic", "from_ptr_sized", &args, format!("{}: panic: {}", route, m), "a value".into(), "panic"),
+            Ok(None) => return Verdict::fail("from_int_some", "from_ptr_sized", &args, format!("{}: None", route), "Some(exact value)".into(), "none"),
+            Ok(Some(t)) => {
+                let wds = [t.hi(), t.lo()];
+                if !dd_valid_fast(wds[0], wds[1]) {
+                    return Verdict::fail("from_int_valid", "from_ptr_sized", &args, format!("{}: {}", route, show_dd(wds)), "a valid TwoFloat".into(), "invalid_result");
+                }
+                if !Dy::from_dd(wds[0], wds[1]).eq(d) {
+                    return Verdict::fail("from_int_exact", "from_ptr_sized", &args, format!("{}: {}", route, show_dd(wds)), format!("exactly {}", d.to_hex()), "inexact");
+                }
+            }
+        }
+    }
+    Verdict::Pass
+}
+
 pub fn judge_to_all(x: [f64; 2], l: &mut Local, rec: &Recorder, idx: u64) {
     let fs: [fn([f64; 2]) -> Verdict; 10] = [to_i8, to_u8, to_i16, to_u16, to_i32, to_u32, to_i64, to_u64, to_i128, to_u128];
     for (k, f) in fs.iter().enumerate() {
         rec.record(l, idx * 12 + k as u64, f(x));
     }
     rec.record(l, idx * 12 + 10, judge_float(x));
+    rec.record(l, idx * 12 + 11, to_ptr_sized(x));
 }
 
 /// f64::from(x) is the high word, f32::from(x) the high word rounded to f32 (all four impls)
@@ -208,6 +267,8 @@ pub fn replay(call: &str, _clause: &str, args: &[u64]) -> Verdict {
         "to_i128" => to_i128(x(args)),
         "to_u128" => to_u128(x(args)),
         "to_float" => judge_float(x(args)),
+        "to_isize" | "to_usize" => to_ptr_sized(x(args)),
+        "from_ptr_sized" => from_ptr_sized(args[0]),
         "from_f32" => judge_from_f32(f32::from_bits(args[0] as u32)),
         _ => panic!("unknown call {}", call),
     }
@@ -388,10 +449,11 @@ pub fn run(r: &mut Runner) {
     // ---- 64-bit and 128-bit
     let v64 = ints64(if quick { 3 } else { 5 });
     let n64 = v64.len();
-    r.par("from 64-bit", n64.div_ceil(1024), 2 * n64 as u64, |c, l| {
+    r.par("from 64-bit", n64.div_ceil(1024), 3 * n64 as u64, |c, l| {
         for i in (c * 1024)..((c + 1) * 1024).min(n64) {
             rec.record(l, (1 << 41) + 2 * i as u64, from_u64(v64[i]));
             rec.record(l, (1 << 41) + 2 * i as u64 + 1, from_i64(v64[i] as i64));
+            rec.record(l, (1 << 43) + i as u64, from_ptr_sized(v64[i]));
         }
     });
     let v128 = ints128(if quick { 3 } else { 5 });
